@@ -14,7 +14,7 @@ pub fn prop() -> Prop {
         rule: "observer bodies H (13: the bound name next to ., ^., ^^., ^^^., another variable, another macro, a selected name) x enclosing contexts X (12: top level, map, filter, fold, sort_by, map_values, pipe stage, pipe-then-map, flat_map, pipes with a stage that returns its input unchanged) x binding forms F (23: set, define, a macro whose body names another macro or variable that is bound later, earlier or re-bound at the place of use, --set variable, --set macro, nested both ways, shadowing an inner/outer/--set binding, unused names, a macro whose body reads a variable bound outside/inside, a macro reading ^) x placement (binding outside X / inside the functional argument) x bound values (4) x position 1..4 among --select options x with/without --split-by x 2 inputs; plus the same expression repeated in four --select positions; plus 3..130 variables and macros in scope at once (nested set/define, or --set given that many times); 10..1100 expansions of one macro in one record, most yielding nothing; shadowing where the inner and the outer value are numerically close (2^64-1 / 2^64, -2^63 / -2^63-1, 2^53+1 / 2^53, 0 / -0.0); non-trivial = the body reads something the binding had to carry over (^, another binding, a selected name) or sits after --split-by / other selections; distinct by construction",
         explanation: "each case is one run with two selections: the bound form and the form obtained by substituting the bound value / macro body by hand; both must have the same value (differential, no model needed) and both are also compared with the reference evaluator",
         assumptions: COMMON_ASSUMPTIONS.to_vec(),
-        guards: vec!["many-macro-expansions-in-one-record", "shadowing-with-numerically-close-values", "many-bindings-in-scope", "parent-read-under-a-binding", "other-variable-survives", "other-macro-survives", "selected-name-survives", "after-split", "shadowing", "macro-body-reads-outer-variable", "pipe-stage-parent", "later-select-sees-same-parents"],
+        guards: vec!["binding-names-beyond-ascii-letters", "many-macro-expansions-in-one-record", "shadowing-with-numerically-close-values", "many-bindings-in-scope", "parent-read-under-a-binding", "other-variable-survives", "other-macro-survives", "selected-name-survives", "after-split", "shadowing", "macro-body-reads-outer-variable", "pipe-stage-parent", "later-select-sees-same-parents"],
         budget_s: (100, 1800),
         single_worker: false,
         run,
@@ -445,4 +445,40 @@ fn run(ctx: &mut Ctx) {
         }
     }
     ctx.level_done("shadowing-with-numerically-close-values");
+    // names: a bound name is free text (up to white space, `)`, `,` or `=` in the sigil spelling); the sigil spelling
+    // and the function spelling reach the same binding, in every binding form, under shadowing, inside a functional argument
+    let names = ["x", "caf\u{e9}", "gr\u{f6}\u{df}e", "\u{f1}", "\u{52a0}", "\u{1f603}", "a.b", "k#1", "x-y", "\u{e9}{", "\u{3a9}/2", "v1:", "m(1", "q[0]"];
+    for (ni, name) in names.iter().enumerate() {
+        if !ctx.mine() {
+            continue;
+        }
+        for val in ["7", "[1, \"s\"]"] {
+            let cases: Vec<(&str, Vec<String>, String)> = vec![
+                ("set", vec![], format!("(set \"{name}\" {val} (push [] :{name} (: \"{name}\") (map (range 1) :{name})))")),
+                ("define", vec![], format!("(define \"{name}\" {val} (push [] @{name} (@ \"{name}\") (map (range 1) @{name})))")),
+                ("--set-variable", vec![format!("--set={name}={val}")], format!("(push [] :{name} (: \"{name}\") (map (range 1) :{name}))")),
+                ("--set-macro", vec![format!("--set=@{name}={val}")], format!("(push [] @{name} (@ \"{name}\") (map (range 1) @{name}))")),
+                ("shadow---set", vec![format!("--set={name}=0")], format!("(set \"{name}\" {val} (push [] :{name} (: \"{name}\") (map (range 1) :{name})))")),
+                ("set-next-to-a-longer-name", vec![format!("--set={name}{name}=0")], format!("(set \"{name}\" {val} (push [] :{name} (: \"{name}\") (map (range 1) :{name})))")),
+            ];
+            let v = json::parse_str(val);
+            let want = V::Arr(vec![v.clone(), v.clone(), V::Arr(vec![v.clone()])]);
+            for (form, extra, e) in cases {
+                let mut args = extra.clone();
+                args.push(format!("--select={e}=r"));
+                let case = Case::owned(args, b"null\n".to_vec());
+                let obs = ctx.run(&case);
+                ctx.case_done();
+                ctx.trace_validated();
+                ctx.nontrivial();
+                ctx.guard("binding-names-beyond-ascii-letters");
+                ctx.transition(&("name", ni, form));
+                let got = json::parse_rows(&obs.stdout, b"\n").ok().and_then(|r| r.first().and_then(|x| x.get("r").cloned()));
+                if !obs.res.is_ok() || got.as_ref() != Some(&want) {
+                    ctx.violation("binding-not-reached-through-its-name", &format!("{form} name#{ni}"), &[case.clone()], json::to_text(&want), obs.brief());
+                }
+            }
+        }
+    }
+    ctx.level_done("binding-names(14-names-x-6-forms)");
 }
